@@ -219,14 +219,25 @@ def m_future_poll(it, a, ty, callee):
     m = re.match(r'^<\{async fn body of (.*)\(\)\} as (?:std::future|futures)::Future>::poll$', callee, re.S)
     if m:
         parent = it.resolve(m.group(1))
-        if parent is None:
-            raise Inconclusive('async fn body: cannot resolve ' + m.group(1))
-        name = parent + '::{closure#0}'
-        return it.call_body(it.bodies[name], a)
+        if parent is not None:
+            name = parent + '::{closure#0}'
+            return it.call_body(it.bodies[name], a)
     m = re.match(r'^<(\{async (?:block|closure)[^{}]*\}) as (?:std::future|futures)::Future>::poll$', callee, re.S)
     if m:
         return it.call_body(it.closure_body(m.group(1)), a)
-    raise Inconclusive('Future::poll on ' + callee[:80])
+    # opaque `impl Future` / boxed future: dispatch on the run-time value behind the Pin
+    recv = a[0]
+    p = recv.fields[0] if isinstance(recv, Adt) and recv.ty == PIN else recv
+    target = it.load(p) if isinstance(p, Ptr) else p
+    if isinstance(target, Adt) and target.ty == 'Box':
+        p = box_ptr(target)
+        target = it.load(p)
+    if isinstance(target, Adt) and target.ty.startswith('{'):
+        return it.call_body(it.closure_body(target.ty), [Adt(PIN, 0, [p])] + list(a[1:]))
+    if hasattr(target, 'chan'):
+        from .env import m_send_poll
+        return m_send_poll(it, [p] + list(a[1:]), ty, callee)
+    raise Inconclusive('Future::poll on %s (%r)' % (callee[:80], target))
 
 
 def as_bytes(it, v):
@@ -309,6 +320,7 @@ def install(it):
     A = it.add_model
     A(r'(?:std|core)::slice::<impl \[u8\]>::to_vec', m_to_vec)
     A(r'bytes::Bytes::to_vec', m_to_vec)
+    A(r'<.* as std::future::IntoFuture>::into_future', lambda it, a, ty, c: a[0])
     A(r'<.* as futures::StreamExt>::poll_next_unpin', m_poll_next_unpin)
     A(r'(?:std|core)::slice::<impl \[&\[u8\]\]>::concat::<u8>', m_concat)
     A(r'<bytes::(Bytes|BytesMut) as std::convert::Into<std::vec::Vec<u8>>>::into', m_to_vec)
@@ -326,6 +338,7 @@ def install(it):
     A(r'bytes::BytesMut::reserve', lambda it, a, ty, c: UNIT)
     A(r'std::boxed::Box::<.*>::pin', m_box_pin)
     A(r'<\{async .*\} as (?:std::future|futures)::Future>::poll', m_future_poll)
+    A(r'<impl std::future::Future<.*> as (?:std::future|futures)::Future>::poll', m_future_poll)
     A(r'bytes::BytesMut::zeroed', m_zeroed)
     A(r'bytes::BytesMut::resize', m_resize)
     A(r'bytes::(BytesMut|Bytes)::(new|with_capacity)', m_new)
